@@ -11,6 +11,7 @@ import (
 	"os"
 	"sort"
 	"sync"
+	"sync/atomic"
 	"syscall"
 	"time"
 
@@ -121,7 +122,7 @@ type Net struct {
 	listeners map[string]*Listener
 	conns     []*Conn
 	dirs      []*Dir
-	auto      bool // autonomous mode: immediate delivery, no scheduler
+	auto      atomic.Bool // autonomous mode: immediate delivery, no scheduler
 
 	// Refuse makes Dial fail with ECONNREFUSED even if a listener exists.
 	refuse map[string]bool
@@ -376,7 +377,7 @@ func (e *End) Write(b []byte) (int, error) {
 		}
 		d.Written += int64(len(b))
 		cp := append([]byte(nil), b...)
-		if d.net.auto {
+		if d.net.auto.Load() {
 			d.rbuf = append(d.rbuf, cp...)
 			d.broadcast()
 			d.mu.Unlock()
@@ -416,7 +417,7 @@ func (e *End) Close() error {
 	w := e.wr
 	w.mu.Lock()
 	w.wrClosed = true
-	if w.net.auto {
+	if w.net.auto.Load() {
 		w.eof = true
 		w.broadcast()
 	} else if !w.eofQueued {
@@ -738,7 +739,7 @@ func (n *Net) Idle() bool {
 // shutdown switches to autonomous mode and resets every connection.
 func (n *Net) shutdown() {
 	n.mu.Lock()
-	n.auto = true
+	n.auto.Store(true)
 	conns := n.conns
 	var ls []*Listener
 	for _, l := range n.listeners {
